@@ -23,6 +23,7 @@ LEVEL_TEXT = (
     "CvtToFuzzy between the thresholds, and monotone mappings must preserve the order of cells. Sampled, not exhaustive."
     ' Value pools that a tolerant comparison would conflate (250001/250002, 1/1.000001) and a whole-model part are included.'
 )
+LEVEL_TEXT += ' Added later: a retry part (a conversion fails on a constant field, the field is replaced by deleting and re-adding it, the program is run again).'
 LEVEL_NOTE = (
     "The property text counts 17 commands; the tree has 14 conversion/normalisation classes. NormalizeZScore with omitted "
     "z-thresholds is not asserted (docs and code disagree; the property text does not cover it). Decisions within the "
